@@ -3,6 +3,7 @@ it proved redundant, pattern functions respect operand flags and return
 written registers, the x86_64 tree grammar is complete for its value types.
 (ABI rules: C40; ELF: C17; allocator: C06.)"""
 import ast
+import re
 
 from ..core import norm, walk_no_nested, calls_in, call_name, last_name, assigned_values, compare_ops
 from ..cfg import CFG, node_calls
@@ -71,6 +72,7 @@ def run(ctx):
     ok = "return ('set', lhs, rhs)" in norm(ctx.fn("ppci/arch/effects.py", "Assign")) and "return Assign(lhs, rhs)" in norm(ctx.fn("ppci/arch/effects.py", "Set"))
     ctx.ob("C04.R4", "ppci/arch/effects.py", "effects compare structurally: Set and Assign build the same ('set', lhs, rhs) tuple", ok, construct="effects")
     _float_to_int(ctx)
+    _constant_classes(ctx)
 
 
 def _float_to_int(ctx):
@@ -105,3 +107,56 @@ def _float_to_int(ctx):
                 ctx.ob("C04.R7", "%s:%s" % (X, fn.name), "%s is selected with a truncating conversion (emits `%s`)" % (", ".join(t.split("(")[0].strip("'") for t in conv), mn), mn.startswith("cvtt"),
                        construct="truncating:%s" % fn.name, node=c, detail="%s -> %s" % (cls, mn))
     ctx.need(n >= 4, "x86_64 float->int conversion patterns not found (%d)" % n)
+
+
+XI = "ppci/arch/x86_64/instructions.py"
+# nonterminal -> (signed interval the hardware gives the immediate, instruction forms that may take it).  Intel SDM vol. 2: ADD/AND/SUB/OR/XOR/CMP r/m64, imm32
+# "imm32 sign-extended to 64-bits"; a disp32 of a ModRM memory operand is sign-extended as well.
+SIGN_EXTENDED_IMM = {"con32": ((-2 ** 31, 2 ** 31 - 1), {"AddImm", "AndImm", "SubImm", "OrImm", "XorImm", "CmpImm", "RmMemDisp"})}
+
+
+def _constant_classes(ctx):
+    """R10.  x86-64 has no 64-bit immediates for arithmetic: `add r64, imm32` and disp32 SIGN-extend 32 bits.  The tree grammar routes
+    small 64-bit constants through the nonterminal `con32`; the admission condition of every pattern that produces it is evaluated
+    (sa/minieval) on the boundary values: 2^31 .. 2^32-1 must be refused - Token accepts them for a 32-bit field (the two's complement
+    reading), and the machine then adds 0xFFFFFFFF80000000 instead of 0x80000000."""
+    from .. import minieval
+    ctx.rule("C04.R10", "x86-64: a constant admitted into the nonterminal `con32` fits a SIGN-extended 32-bit immediate (-2^31 .. 2^31-1) whatever the IR type of the constant, and `con32` is only consumed by instruction forms that sign-extend an imm32 / disp32", floor=6)
+    mod = ctx.project.module(XI)
+    producers, consumers = [], []
+    for fn in [f for f in mod.tree.body if isinstance(f, ast.FunctionDef)]:
+        for d in fn.decorator_list:
+            if isinstance(d, ast.Call) and norm(d.func).endswith(".pattern") and len(d.args) >= 2 and isinstance(d.args[0], ast.Constant) and isinstance(d.args[1], ast.Constant):
+                nt, tree = d.args[0].value, d.args[1].value
+                if nt in SIGN_EXTENDED_IMM:
+                    producers.append((fn, d, nt, tree))
+                for k in SIGN_EXTENDED_IMM:
+                    if re.search(r"\b%s\b" % k, tree):
+                        consumers.append((fn, d, k, tree))
+    ctx.need(len(producers) >= 2 and len(consumers) >= 5, "x86_64 patterns around con32: %d producers, %d consumers found (2 / 7 confirmed by reading)" % (len(producers), len(consumers)))
+    for fn, d, nt, tree in producers:
+        (lo, hi), _ = SIGN_EXTENDED_IMM[nt]
+        site = "%s:%s" % (XI, fn.name)
+        cond = [k.value for k in d.keywords if k.arg == "condition"]
+        if not cond or not isinstance(cond[0], ast.Lambda):
+            ctx.ob("C04.R10", site, "%s from %s has an admission condition" % (nt, tree), False, construct="condition:%s:%s" % (nt, tree), node=d)
+            continue
+        par = cond[0].args.args[0].arg
+        wrong = []
+        try:
+            for v in (lo - 2 ** 32, lo - 1, lo, -1, 0, 1, hi, hi + 1, 2 ** 32 - 1, 2 ** 32, 2 ** 63):
+                got = bool(minieval.ev(cond[0].body, {par + ".value": v, "__paths__": {}, par: minieval.Sym(par)}))
+                if got and not (lo <= v <= hi):
+                    wrong.append(v)
+        except minieval.Undecidable as e:
+            ctx.undecided("C04.R10", site, "condition of %s <- %s: %s" % (nt, tree, e))
+            continue
+        ctx.ob("C04.R10", site, "%s admits a %s only inside [%d, %d]" % (nt, tree, lo, hi), not wrong, construct="admits:%s:%s" % (nt, tree), node=d, detail="also admitted: %s" % [hex(v) for v in wrong] if wrong else norm(cond[0].body))
+        ret = [r for r in walk_no_nested(fn) if isinstance(r, ast.Return)]
+        ctx.ob("C04.R10", site, "the nonterminal's value is the constant itself", len(ret) == 1 and norm(ret[0].value) in ("tree.value",), construct="value:%s:%s" % (nt, tree))
+    for fn, d, nt, tree in consumers:
+        _, forms = SIGN_EXTENDED_IMM[nt]
+        site = "%s:%s" % (XI, fn.name)
+        made = {norm(c.func).split(".")[-1] for c in walk_no_nested(fn) if isinstance(c, ast.Call) and norm(c.func).split(".")[-1][:1].isupper() and norm(c.func).split(".")[-1] not in ("Register64",)}
+        imm_users = {m for m in made if m not in ("RmReg64", "MovRegRm", "RmMem")}
+        ctx.ob("C04.R10", site, "%s in `%s` only reaches sign-extending imm32 / disp32 forms" % (nt, tree), imm_users <= forms and bool(imm_users), construct="consumer:%s:%s" % (fn.name, tree), node=d, detail="constructs %s" % sorted(made))
